@@ -14,7 +14,12 @@
    every call through the oracle [up : Z -> bool] on [hid], supplied by the environment.
    Not modelled: the token ring / replica map computation (C09/C10: the replica list and the primary
    owner of the query's token are inputs of [ta_pick]), HostPoolHostPolicy (third-party hostpool). *)
-From GocqlV Require Import Lib.Base Gen.Consts.
+From GocqlV Require Import Lib.Base.
+
+(* NodeUp (host_source.go:53, `NodeUp nodeState = iota`).  Typed in here so that the files the correspondence
+   shards load do not depend on the generated Gen/Consts.vo (which concurrent runs rebuild);
+   Props.C11_node_up_is_source_constant proves it equal to the generated K.NodeUp on every run. *)
+Definition node_up : Z := 0.
 
 Record host := mkHost { hid : Z; haddr : Z; hdc : Z; hrack : Z }.
 
@@ -174,20 +179,23 @@ Inductive p2_res := P2Found (h : host) (rem : list (list host)) | P2Done (rem : 
 (* second loop: for j < len(remote) && k < len(remote[j]).  The state (remote, j, k) is represented by
    rem = remote[j][k:] :: remote[j+1:] (rem = [] when j = len(remote)); k is 0 whenever j has just been
    incremented, so `k < len(remote[j])` fails exactly when the head of rem is empty: the loop then
-   ends without looking at the tiers behind it. *)
+   ends without looking at the tiers behind it.
+   [p2_inner] walks the current tier [cur]; [next_tier] is what the loop does once `k >= len(remote[j])`
+   has made it move on (j++, k = 0), i.e. the loop run on [rest]. *)
+Fixpoint p2_inner (up : Z -> bool) (rest : list (list host)) (next_tier : p2_res) (cur : list host) : p2_res :=
+  match cur with
+  | [] => P2Done ([] :: rest)
+  | h :: cur' =>
+      match cur' with
+      | [] => if up (hid h) then P2Found h rest else next_tier
+      | _ :: _ => if up (hid h) then P2Found h (cur' :: rest) else p2_inner up rest next_tier cur'
+      end
+  end.
+
 Fixpoint ta_phase2 (up : Z -> bool) (rem : list (list host)) : p2_res :=
   match rem with
   | [] => P2Done []
-  | cur :: rest =>
-      (fix inner (cur : list host) : p2_res :=
-         match cur with
-         | [] => P2Done ([] :: rest)
-         | h :: cur' =>
-             match cur' with
-             | [] => if up (hid h) then P2Found h rest else ta_phase2 up rest        (* k >= len: j++, k = 0 *)
-             | _ :: _ => if up (hid h) then P2Found h (cur' :: rest) else inner cur'
-             end
-         end) cur
+  | cur :: rest => p2_inner up rest (ta_phase2 up rest) cur
   end.
 
 Definition zmem (x : Z) (l : list Z) : bool := existsb (Z.eqb x) l.
@@ -290,7 +298,7 @@ Definition set_up (up : Z -> bool) (id : Z) (b : bool) : Z -> bool := fun x => i
 Definition step (c : cfg) (s : sys) (l : label) : option (sys * option outcome) :=
   match l with
   | LOp o => Some (mkSys (pol_op (s_pol s) o) (s_up s) (s_iters s), None)
-  | LSetState id st => Some (mkSys (s_pol s) (set_up (s_up s) id (st =? K.NodeUp)) (s_iters s), None)
+  | LSetState id st => Some (mkSys (s_pol s) (set_up (s_up s) id (st =? node_up)) (s_iters s), None)
   | LSetCtr v => Some (mkSys (mkPolicy (pk (s_pol s)) (plists (s_pol s)) (wrap 64 v)) (s_up s) (s_iters s), None)
   | LPick n q =>
       if pick_ok c q then
